@@ -8,13 +8,323 @@ import (
 
 	ipfslog "berty.tech/go-ipfs-log"
 	orbitdb "berty.tech/go-orbit-db"
-	"berty.tech/go-orbit-db/iface"
+	"berty.tech/go-orbit-db/stores/replicator"
 	cid "github.com/ipfs/go-cid"
 	datastore "github.com/ipfs/go-datastore"
 	"verifharness/sim"
 )
 
 func init() { drivers["C02"] = driver{"C02", runC02} }
+
+// c02scen is one C02 scenario: the replicas, what was written, the links of every entry
+// seen, and the recording of the cases (cover, holes, final).
+type c02scen struct {
+	r       *Run
+	s       *Scen
+	si      int
+	n       int
+	typ     string
+	kind    string              // "random" | "holes-..."
+	written map[string]bool     // acknowledged writes
+	links   map[string][]string // hash -> next ∪ refs
+	lastH   map[int]string      // last CHoles term recorded per replica (only changes are recorded)
+	track   bool                // scripted history: mirror every step as a step of Model/NetHoles.v
+	hist    []string            // the mirrored steps (Coq terms)
+}
+
+func newC02Scen(r *Run, si, n int, typ, kind string) (*c02scen, error) {
+	s, err := NewScen(n, typ, nil) // manual network: nothing is delivered unless the script says so
+	if err != nil {
+		return nil, err
+	}
+	return &c02scen{r: r, s: s, si: si, n: n, typ: typ, kind: kind,
+		written: map[string]bool{}, links: map[string][]string{}, lastH: map[int]string{}}, nil
+}
+
+func (c *c02scen) idx(i int) int { return c.s.Reps[i].Idx }
+
+func (c *c02scen) note(es []ipfslog.Entry) {
+	for _, e := range es {
+		h := e.GetHash().String()
+		if _, ok := c.links[h]; ok {
+			continue
+		}
+		var l []string
+		for _, x := range e.GetNext() {
+			l = append(l, x.String())
+		}
+		for _, x := range e.GetRefs() {
+			l = append(l, x.String())
+		}
+		c.links[h] = l
+	}
+}
+
+func (c *c02scen) settle(what string) {
+	if !sim.Settle(c.s.Env.Ctx, c.s.Env, 20*time.Second, 1, c.s.Stores...) {
+		c.r.AddDirect("hang:"+what, "system did not settle", map[string]interface{}{"scen": c.si, "state": sim.LastSettleState})
+	}
+}
+
+func (c *c02scen) trace(f string, a ...interface{}) {
+	if os.Getenv("VERIF_TRACE") != "" {
+		fmt.Fprintf(os.Stderr, "C02 scen %d: "+f+"\n", append([]interface{}{c.si}, a...)...)
+	}
+}
+
+func (c *c02scen) lens() []int {
+	var l []int
+	for _, st := range c.s.Stores {
+		l = append(l, st.OpLog().Len())
+	}
+	return l
+}
+
+func (c *c02scen) cachedHeads(i int) []string {
+	var cached []string
+	for _, k := range []string{"_localHeads", "_remoteHeads"} {
+		raw, err := c.s.Stores[i].Cache().Get(context.Background(), datastore.NewKey(k))
+		if err == nil {
+			cached = append(cached, headHashes(raw)...)
+		}
+	}
+	return cached
+}
+
+// univTerm renders (hash, links) pairs for the given hashes (all known ones when hs is nil).
+func (c *c02scen) univTerm(hs []string) string {
+	var univ []string
+	add := func(h string) {
+		l := c.links[h]
+		ls := make([]int, len(l))
+		for k, x := range l {
+			ls[k] = c.s.Canon.Hash.ID(x)
+		}
+		univ = append(univ, fmt.Sprintf("(%s, %s)", sim.CoqN(c.s.Canon.Hash.ID(h)), sim.CoqListN(ls)))
+	}
+	if hs == nil {
+		for h := range c.links {
+			add(h)
+		}
+	} else {
+		for _, h := range hs {
+			add(h)
+		}
+	}
+	sortStrings(univ)
+	return sim.CoqList(univ)
+}
+
+// cover: the entries of replica i and its cached heads (cover invariant of the set-level model).
+func (c *c02scen) cover(i int, when string) {
+	es := c.s.Stores[i].OpLog().Values().Slice()
+	c.note(es)
+	cached := c.cachedHeads(i)
+	c.r.AddCase(fmt.Sprintf("(CCover %s %s %s)", c.univTerm(nil), sim.CoqListN(idsOf(c.s.Canon, hashesOf(es))), sim.CoqListN(idsOf(c.s.Canon, cached))),
+		map[string]interface{}{"kind": "cover", "scen": c.si, "replica": i, "when": when, "entries": len(es), "cached": len(cached)}, len(es) >= 2)
+	c.r.Count("cover")
+}
+
+// failedOf: the hashes the replicator of replica i remembers as failed (retried by the next request).
+func (c *c02scen) failedOf(i int) []string {
+	fl, ok := c.s.Stores[i].Replicator().(replicator.VerifFailedLister)
+	if !ok {
+		return nil
+	}
+	var out []string
+	for _, x := range fl.VerifFailed() {
+		out = append(out, x.String())
+	}
+	sortStrings(out)
+	return out
+}
+
+// holes: the hole invariant on replica i at rest: every link target of a held entry is held
+// or is remembered as failed by the replicator.  Recorded when it differs from the last
+// recording for that replica (or when forced).
+func (c *c02scen) holes(i int, when string, force bool) {
+	es := c.s.Stores[i].OpLog().Values().Slice()
+	c.note(es)
+	log := hashesOf(es)
+	failed := c.failedOf(i)
+	have := map[string]bool{}
+	for _, h := range log {
+		have[h] = true
+	}
+	dangling := 0
+	for _, h := range log {
+		for _, y := range c.links[h] {
+			if !have[y] {
+				dangling++
+			}
+		}
+	}
+	term := fmt.Sprintf("(CHoles %s %s %s)", c.univTerm(log), sim.CoqListN(idsOf(c.s.Canon, log)), sim.CoqListN(idsOf(c.s.Canon, failed)))
+	if !force && c.lastH[i] == term {
+		return
+	}
+	c.lastH[i] = term
+	c.r.AddCase(term, map[string]interface{}{"kind": "holes", "sig": "hole-not-recorded", "scen": c.si, "scenkind": c.kind, "replica": i, "when": when,
+		"entries": len(log), "failed": len(failed), "dangling": dangling}, dangling > 0 || len(failed) > 0)
+	c.r.Count("holes")
+	if dangling > 0 {
+		c.r.Count("holes-with-dangling-links")
+	}
+}
+
+func (c *c02scen) holesAll(when string) {
+	for i := 0; i < c.n; i++ {
+		c.holes(i, when, false)
+	}
+}
+
+// okFun renders the fetch outcome of replica t at this moment as a Coq function: the hashes
+// it can obtain now (own block store or a connected holder), plus `extra` (heads that Sync
+// stores locally before the request starts).
+func (c *c02scen) okFun(t int, extra ...string) string {
+	seen := map[string]bool{}
+	var ok []string
+	for h := range c.links {
+		if c.s.Reps[t].API.Visible(h) {
+			ok = append(ok, h)
+			seen[h] = true
+		}
+	}
+	for _, h := range extra {
+		if !seen[h] {
+			ok = append(ok, h)
+		}
+	}
+	sortStrings(ok)
+	return fmt.Sprintf("(fun h => memN h %s)", sim.CoqListN(idsOf(c.s.Canon, ok)))
+}
+
+func (c *c02scen) step(f string, a ...interface{}) {
+	if c.track {
+		c.hist = append(c.hist, fmt.Sprintf(f, a...))
+	}
+}
+
+// histCase: the mirrored history replayed on the model must give, per replica, the log and
+// the failed hashes observed now.
+func (c *c02scen) histCase(final bool, when string) {
+	if !c.track {
+		return
+	}
+	obs := make([]string, c.n)
+	for i := 0; i < c.n; i++ {
+		es := c.s.Stores[i].OpLog().Values().Slice()
+		c.note(es)
+		obs[i] = fmt.Sprintf("(%s, %s)", sim.CoqListN(idsOf(c.s.Canon, hashesOf(es))), sim.CoqListN(idsOf(c.s.Canon, c.failedOf(i))))
+	}
+	c.r.AddCase(fmt.Sprintf("(CHist %s %s %s %s %s)", sim.CoqNat(c.n), sim.CoqList(c.hist), sim.CoqBool(final), c.univTerm(nil), sim.CoqList(obs)),
+		map[string]interface{}{"kind": "history", "sig": "model-history-mismatch", "scen": c.si, "scenkind": c.kind, "when": when, "steps": len(c.hist), "final": final}, true)
+	c.r.Count("history")
+}
+
+// write performs one operation on replica i and returns the hashes it added.
+func (c *c02scen) write(i, tag int) ([]string, error) {
+	before := hashesOf(c.s.Stores[i].OpLog().Values().Slice())
+	if err := writeOp(c.r, c.s, c.s.Stores[i], tag); err != nil {
+		return nil, err
+	}
+	es := c.s.Stores[i].OpLog().Values().Slice()
+	c.note(es)
+	seen := map[string]bool{}
+	for _, h := range before {
+		seen[h] = true
+	}
+	var added []string
+	for _, h := range hashesOf(es) {
+		if !seen[h] {
+			c.written[h] = true
+			added = append(added, h)
+		}
+	}
+	return added, nil
+}
+
+// restart closes replica i and reopens it from its directory: Open + Load(-1).
+func (c *c02scen) restart(i int) error {
+	ctx := context.Background()
+	s := c.s
+	_ = s.Reps[i].Orbit.Close()
+	rep, err := s.Env.NewReplicaAt(s.Reps[i].Idx, s.Label, s.Reps[i].Dir)
+	if err != nil {
+		return err
+	}
+	st2, err := rep.Orbit.Open(ctx, s.Addr, &orbitdb.CreateDBOptions{})
+	if err != nil {
+		return fmt.Errorf("reopen: %w", err)
+	}
+	if err := st2.Load(ctx, -1); err != nil {
+		return fmt.Errorf("load: %w", err)
+	}
+	s.Reps[i], s.Stores[i] = rep, st2
+	delete(c.lastH, i)
+	return nil
+}
+
+// final: heal everything, deliver everything, repeatedly, until nothing is pending; then
+// record cover, holes and the final comparison.
+func (c *c02scen) final() {
+	ctx := context.Background()
+	s, net, n := c.s, c.s.Env.Net, c.n
+	for a := 0; a < n; a++ {
+		for b := a + 1; b < n; b++ {
+			net.Cut(c.idx(a), c.idx(b)) // make sure the heal is observed as a (re)join by both sides
+		}
+	}
+	for a := 0; a < n; a++ {
+		for b := a + 1; b < n; b++ {
+			net.Heal(c.idx(a), c.idx(b))
+		}
+	}
+	c.trace("final phase: healed all, pending=%d -> %v", net.PendingLen(), c.lens())
+	for round := 0; round < 50; round++ {
+		c.settle("final")
+		c.trace("final round %d pending=%d -> %v", round, net.PendingLen(), c.lens())
+		if net.PendingLen() == 0 {
+			break
+		}
+		for net.PendingLen() > 0 {
+			net.DeliverPending(0, false)
+		}
+	}
+	c.settle("final")
+	c.trace("end -> %v state %s", c.lens(), sim.LastSettleState)
+	if os.Getenv("VERIF_TRACE") != "" {
+		for i, st := range s.Stores {
+			have := map[string]bool{}
+			for _, h := range hashesOf(st.OpLog().Values().Slice()) {
+				have[h] = true
+			}
+			for h := range c.written {
+				if !have[h] {
+					_, gerr := s.Reps[i].API.Dag().Get(ctx, mustCid(h))
+					c.trace("replica %d misses %d (links %v) fetchable-now err=%v", i, s.Canon.Hash.ID(h), idsOf(s.Canon, c.links[h]), gerr)
+				}
+			}
+			c.trace("replica %d heads %v cached %v failed %v", i, idsOf(s.Canon, hashesOf(st.OpLog().Heads().Slice())), idsOf(s.Canon, c.cachedHeads(i)), idsOf(s.Canon, c.failedOf(i)))
+		}
+	}
+	var all []string
+	for h := range c.written {
+		all = append(all, h)
+	}
+	sortStrings(all)
+	logs := make([]string, n)
+	for i := 0; i < n; i++ {
+		logs[i] = sim.CoqListN(idsOf(s.Canon, hashesOf(s.Stores[i].OpLog().Values().Slice())))
+		c.cover(i, "final")
+		c.holes(i, "final", true)
+	}
+	c.r.AddCase(fmt.Sprintf("(CFinal %s %s)", sim.CoqListN(idsOf(s.Canon, all)), sim.CoqList(logs)),
+		map[string]interface{}{"kind": "final", "sig": "final-divergence", "scen": c.si, "scenkind": c.kind, "replicas": n, "written": len(all), "type": c.typ}, len(all) >= 2)
+	c.histCase(true, "final")
+	c.r.Count(fmt.Sprintf("replicas=%d", n))
+	c.r.Count("scen:" + c.kind)
+}
 
 // C02: eventual delivery.  2..4 replicas write while links are cut and healed,
 // announcements are dropped, duplicated and delivered out of order, and replicas restart;
@@ -26,237 +336,387 @@ func runC02(r *Run) error {
 	if r.Tier == "thorough" {
 		scens = 80
 	}
-	ctx := context.Background()
 	for si := 0; si < scens; si++ {
 		n := 2 + r.Rng.Intn(3)
 		typ := []string{"eventlog", "keyvalue"}[si%2]
-		s, err := NewScen(n, typ, nil) // manual network: nothing is delivered unless the script says so
+		c, err := newC02Scen(r, si, n, typ, "random")
 		if err != nil {
 			return err
 		}
-		net := s.Env.Net
-		idx := func(i int) int { return s.Reps[i].Idx }
-		written := map[string]bool{}
-		links := map[string][]string{} // hash -> next ∪ refs
-		note := func(es []ipfslog.Entry) {
-			for _, e := range es {
-				h := e.GetHash().String()
-				if _, ok := links[h]; ok {
-					continue
-				}
-				var l []string
-				for _, c := range e.GetNext() {
-					l = append(l, c.String())
-				}
-				for _, c := range e.GetRefs() {
-					l = append(l, c.String())
-				}
-				links[h] = l
-			}
+		if err := c.runRandom(); err != nil {
+			return err
 		}
-		settle := func(what string) {
-			if !sim.Settle(s.Env.Ctx, s.Env, 20*time.Second, 1, s.Stores...) {
-				r.AddDirect("hang:"+what, "system did not settle", map[string]interface{}{"scen": si, "state": sim.LastSettleState})
+		c.s.Close()
+	}
+	// deterministic histories: a replication request that fetches an entry but not one of its
+	// ancestors (the link goes down in between), then restarts of the replica while the
+	// ancestor is still unreachable, then the final phase
+	rounds := 1
+	if r.Tier == "thorough" {
+		rounds = 4
+	}
+	si := scens
+	for round := 0; round < rounds; round++ {
+		for _, variant := range []string{"holes-writer-head", "holes-third-replica", "holes-two-restart-twice"} {
+			n := 3
+			if variant == "holes-writer-head" {
+				n = 2 + r.Rng.Intn(2)
 			}
-		}
-		cover := func(i int, when string) {
-			st := s.Stores[i]
-			es := st.OpLog().Values().Slice()
-			note(es)
-			var cached []string
-			for _, k := range []string{"_localHeads", "_remoteHeads"} {
-				raw, err := st.Cache().Get(ctx, datastore.NewKey(k))
-				if err == nil {
-					cached = append(cached, headHashes(raw)...)
-				}
+			typ := []string{"eventlog", "keyvalue"}[r.Rng.Intn(2)]
+			c, err := newC02Scen(r, si, n, typ, variant)
+			if err != nil {
+				return err
 			}
-			// universe restricted to what this replica can name
-			var univ []string
-			for h, l := range links {
-				ls := make([]int, len(l))
-				for k, x := range l {
-					ls[k] = s.Canon.Hash.ID(x)
-				}
-				univ = append(univ, fmt.Sprintf("(%s, %s)", sim.CoqN(s.Canon.Hash.ID(h)), sim.CoqListN(ls)))
+			if err := c.runHoles(variant); err != nil {
+				return err
 			}
-			sortStrings(univ)
-			r.AddCase(fmt.Sprintf("(CCover %s %s %s)", sim.CoqList(univ), sim.CoqListN(idsOf(s.Canon, hashesOf(es))), sim.CoqListN(idsOf(s.Canon, cached))),
-				map[string]interface{}{"kind": "cover", "scen": si, "replica": i, "when": when, "entries": len(es), "cached": len(cached)}, len(es) >= 2)
-			r.Count("cover")
+			c.s.Close()
+			si++
 		}
-		trace := func(f string, a ...interface{}) {
-			if os.Getenv("VERIF_TRACE") != "" {
-				fmt.Fprintf(os.Stderr, "C02 scen %d: "+f+"\n", append([]interface{}{si}, a...)...)
+	}
+	return nil
+}
+
+func (c *c02scen) runRandom() error {
+	r, s, n, net := c.r, c.s, c.n, c.s.Env.Net
+	steps := 8 + r.Rng.Intn(25)
+	if r.Tier == "thorough" {
+		steps = 8 + r.Rng.Intn(60)
+	}
+	for st := 0; st < steps; st++ {
+		switch x := r.Rng.Intn(100); {
+		case x < 35:
+			i := r.Rng.Intn(n)
+			if _, err := c.write(i, st); err != nil {
+				return err
 			}
-		}
-		lens := func() []int {
-			var l []int
-			for _, st := range s.Stores {
-				l = append(l, st.OpLog().Len())
+			c.settle("write")
+			c.trace("write on %d -> %v", i, c.lens())
+			r.Count("write")
+		case x < 52:
+			if k := net.PendingLen(); k > 0 {
+				net.DeliverPending(r.Rng.Intn(k), false) // any order: reordering
+				c.settle("deliver")
+				c.trace("deliver (of %d pending) -> %v", k, c.lens())
+				r.Count("deliver")
 			}
-			return l
-		}
-		steps := 8 + r.Rng.Intn(25)
-		if r.Tier == "thorough" {
-			steps = 8 + r.Rng.Intn(60)
-		}
-		for st := 0; st < steps; st++ {
-			switch c := r.Rng.Intn(100); {
-			case c < 35:
-				i := r.Rng.Intn(n)
-				before := hashesOf(s.Stores[i].OpLog().Values().Slice())
-				if err := writeOp(r, s, s.Stores[i], st); err != nil {
-					return err
-				}
-				es := s.Stores[i].OpLog().Values().Slice()
-				note(es)
-				seen := map[string]bool{}
-				for _, h := range before {
-					seen[h] = true
-				}
-				for _, h := range hashesOf(es) {
-					if !seen[h] {
-						written[h] = true
-					}
-				}
-				settle("write")
-				trace("write on %d -> %v", i, lens())
-				r.Count("write")
-			case c < 52:
-				if k := net.PendingLen(); k > 0 {
-					net.DeliverPending(r.Rng.Intn(k), false) // any order: reordering
-					settle("deliver")
-					trace("deliver (of %d pending) -> %v", k, lens())
-					r.Count("deliver")
-				}
-			case c < 60:
-				// the announcement gets through but the partition hits before the blocks can be fetched
-				if k := net.PendingLen(); k > 0 {
-					a, b := r.Rng.Intn(n), r.Rng.Intn(n)
-					for a2 := 0; a2 < n; a2++ {
-						for b2 := a2 + 1; b2 < n; b2++ {
-							if (a2 == a || b2 == b) && a != b {
-								net.CutBlocks(idx(a2), idx(b2))
-							}
+		case x < 60:
+			// the announcement gets through but the partition hits before the blocks can be fetched
+			if k := net.PendingLen(); k > 0 {
+				a, b := r.Rng.Intn(n), r.Rng.Intn(n)
+				for a2 := 0; a2 < n; a2++ {
+					for b2 := a2 + 1; b2 < n; b2++ {
+						if (a2 == a || b2 == b) && a != b {
+							net.CutBlocks(c.idx(a2), c.idx(b2))
 						}
 					}
-					net.DeliverPending(r.Rng.Intn(k), false)
-					settle("deliver-unfetchable")
-					trace("deliver-unfetchable a=%d b=%d -> %v", a, b, lens())
-					r.Count("deliver-unfetchable")
 				}
-			case c < 66:
-				if k := net.PendingLen(); k > 0 {
-					net.DeliverPending(r.Rng.Intn(k), true) // duplicate
-					settle("dup")
-					trace("dup -> %v", lens())
-					r.Count("duplicate")
-				}
-			case c < 74:
-				if k := net.PendingLen(); k > 0 {
-					net.DropPending(r.Rng.Intn(k))
-					trace("drop")
-					r.Count("drop")
-				}
-			case c < 84:
-				a, b := r.Rng.Intn(n), r.Rng.Intn(n)
-				if a != b {
-					net.Cut(idx(a), idx(b))
-					trace("cut %d %d", a, b)
-					r.Count("cut")
-				}
-			case c < 92:
-				a, b := r.Rng.Intn(n), r.Rng.Intn(n)
-				if a != b {
-					net.Heal(idx(a), idx(b))
-					settle("heal")
-					trace("heal %d %d pending=%d -> %v", a, b, net.PendingLen(), lens())
-					r.Count("heal")
-				}
-			default:
-				i := r.Rng.Intn(n)
-				settle("pre-restart")
-				cover(i, "before-restart")
-				_ = s.Reps[i].Orbit.Close()
-				rep, err := s.Env.NewReplicaAt(s.Reps[i].Idx, s.Label, s.Reps[i].Dir)
-				if err != nil {
-					return err
-				}
-				st2, err := rep.Orbit.Open(ctx, s.Addr, &orbitdb.CreateDBOptions{})
-				if err != nil {
-					return fmt.Errorf("reopen: %w", err)
-				}
-				if err := st2.Load(ctx, -1); err != nil {
-					return fmt.Errorf("load: %w", err)
-				}
-				s.Reps[i], s.Stores[i] = rep, st2
-				settle("restart")
-				trace("restart %d -> %v", i, lens())
-				r.Count("restart")
+				net.DeliverPending(r.Rng.Intn(k), false)
+				c.settle("deliver-unfetchable")
+				c.trace("deliver-unfetchable a=%d b=%d -> %v", a, b, c.lens())
+				r.Count("deliver-unfetchable")
 			}
-		}
-		// final phase: heal everything, deliver everything, repeatedly, until nothing is pending
-		for a := 0; a < n; a++ {
-			for b := a + 1; b < n; b++ {
-				net.Cut(idx(a), idx(b)) // make sure the heal is observed as a (re)join by both sides
+		case x < 66:
+			if k := net.PendingLen(); k > 0 {
+				net.DeliverPending(r.Rng.Intn(k), true) // duplicate
+				c.settle("dup")
+				c.trace("dup -> %v", c.lens())
+				r.Count("duplicate")
 			}
-		}
-		for a := 0; a < n; a++ {
-			for b := a + 1; b < n; b++ {
-				net.Heal(idx(a), idx(b))
+		case x < 74:
+			if k := net.PendingLen(); k > 0 {
+				net.DropPending(r.Rng.Intn(k))
+				c.trace("drop")
+				r.Count("drop")
 			}
-		}
-		trace("final phase: healed all, pending=%d -> %v", net.PendingLen(), lens())
-		for round := 0; round < 50; round++ {
-			settle("final")
-			trace("final round %d pending=%d -> %v", round, net.PendingLen(), lens())
-			if net.PendingLen() == 0 {
-				break
+		case x < 84:
+			a, b := r.Rng.Intn(n), r.Rng.Intn(n)
+			if a != b {
+				net.Cut(c.idx(a), c.idx(b))
+				c.trace("cut %d %d", a, b)
+				r.Count("cut")
 			}
-			for net.PendingLen() > 0 {
-				net.DeliverPending(0, false)
+		case x < 92:
+			a, b := r.Rng.Intn(n), r.Rng.Intn(n)
+			if a != b {
+				net.Heal(c.idx(a), c.idx(b))
+				c.settle("heal")
+				c.trace("heal %d %d pending=%d -> %v", a, b, net.PendingLen(), c.lens())
+				r.Count("heal")
 			}
-		}
-		settle("final")
-		trace("end -> %v state %s", lens(), sim.LastSettleState)
-		if os.Getenv("VERIF_TRACE") != "" {
-			for i, st := range s.Stores {
-				have := map[string]bool{}
-				for _, h := range hashesOf(st.OpLog().Values().Slice()) {
-					have[h] = true
-				}
-				for h := range written {
-					if !have[h] {
-						_, gerr := s.Reps[i].API.Dag().Get(ctx, mustCid(h))
-						trace("replica %d misses %d (links %v) fetchable-now err=%v", i, s.Canon.Hash.ID(h), idsOf(s.Canon, links[h]), gerr)
-					}
-				}
-				var cached []string
-				for _, k := range []string{"_localHeads", "_remoteHeads"} {
-					raw, err := st.Cache().Get(ctx, datastore.NewKey(k))
-					if err == nil {
-						cached = append(cached, headHashes(raw)...)
-					}
-				}
-				trace("replica %d heads %v cached %v", i, idsOf(s.Canon, hashesOf(st.OpLog().Heads().Slice())), idsOf(s.Canon, cached))
+		default:
+			i := r.Rng.Intn(n)
+			c.settle("pre-restart")
+			c.cover(i, "before-restart")
+			if err := c.restart(i); err != nil {
+				return err
 			}
+			c.settle("restart")
+			c.trace("restart %d -> %v failed %v", i, c.lens(), idsOf(s.Canon, c.failedOf(i)))
+			r.Count("restart")
 		}
-		var all []string
-		for h := range written {
-			all = append(all, h)
-		}
-		sortStrings(all)
-		logs := make([]string, n)
-		for i := 0; i < n; i++ {
-			logs[i] = sim.CoqListN(idsOf(s.Canon, hashesOf(s.Stores[i].OpLog().Values().Slice())))
-			cover(i, "final")
-		}
-		r.AddCase(fmt.Sprintf("(CFinal %s %s)", sim.CoqListN(idsOf(s.Canon, all)), sim.CoqList(logs)),
-			map[string]interface{}{"kind": "final", "sig": "final-divergence", "scen": si, "replicas": n, "written": len(all), "type": typ}, len(all) >= 2)
-		r.Count(fmt.Sprintf("replicas=%d", n))
-		_ = iface.Store(nil)
-		s.Close()
+		// the hole invariant on every replica at rest (recorded when it changed)
+		c.holesAll(fmt.Sprintf("step %d", st))
 	}
+	c.final()
+	return nil
+}
+
+// ---- deterministic hole + restart histories ----
+
+// drain delivers everything pending until nothing is in flight.
+func (c *c02scen) drain(what string) {
+	net := c.s.Env.Net
+	for round := 0; round < 50; round++ {
+		c.settle(what)
+		if net.PendingLen() == 0 {
+			return
+		}
+		for net.PendingLen() > 0 {
+			net.DeliverPending(0, false)
+		}
+	}
+}
+
+// awaitAnnounce waits until `want` topic payloads published by replica `from` are pending.
+func (c *c02scen) awaitAnnounce(from, want int) bool {
+	net := c.s.Env.Net
+	deadline := time.Now().Add(10 * time.Second)
+	for {
+		k := 0
+		for _, m := range net.PendingSnapshot() {
+			if m.Kind == "topic" && m.From == c.idx(from) {
+				k++
+			}
+		}
+		if k >= want {
+			return true
+		}
+		if time.Now().After(deadline) {
+			return false
+		}
+		time.Sleep(2 * time.Millisecond)
+	}
+}
+
+// awaitDirect waits until a direct-channel payload from `from` to `to` is pending.
+func (c *c02scen) awaitDirect(from, to int) bool {
+	net := c.s.Env.Net
+	deadline := time.Now().Add(10 * time.Second)
+	for {
+		for _, m := range net.PendingSnapshot() {
+			if m.Kind == "direct" && m.From == c.idx(from) && m.To == c.idx(to) {
+				return true
+			}
+		}
+		if time.Now().After(deadline) {
+			return false
+		}
+		time.Sleep(2 * time.Millisecond)
+	}
+}
+
+// route delivers the pending payloads sent by `from` to the replicas in `to` and drops its others.
+func (c *c02scen) route(from int, to ...int) {
+	net := c.s.Env.Net
+	for {
+		found := false
+		for k, m := range net.PendingSnapshot() {
+			if m.From != c.idx(from) {
+				continue
+			}
+			deliver := false
+			for _, t := range to {
+				if m.To == c.idx(t) {
+					deliver = true
+				}
+			}
+			if deliver {
+				net.DeliverPending(k, false)
+			} else {
+				net.DropPending(k)
+			}
+			found = true
+			break
+		}
+		if !found {
+			return
+		}
+	}
+}
+
+// writeAnnounced: replica i writes once; its announcement (one payload per connected peer)
+// is delivered to the replicas in `to` and lost for the others.  Returns the new hash.
+func (c *c02scen) writeAnnounced(i, tag int, to ...int) (string, error) {
+	peers := 0
+	for j := 0; j < c.n; j++ {
+		if j != i && c.s.Env.Net.Connected(c.idx(i), c.idx(j)) {
+			peers++
+		}
+	}
+	added, err := c.write(i, tag)
+	if err != nil {
+		return "", err
+	}
+	if len(added) != 1 {
+		return "", fmt.Errorf("C02 holes: write added %d entries", len(added))
+	}
+	c.r.Count("write")
+	if peers > 0 && !c.awaitAnnounce(i, peers) {
+		return "", fmt.Errorf("C02 holes: announcement of replica %d not published", i)
+	}
+	c.step("HWrite %s %s %s", sim.CoqNat(i), sim.CoqN(c.s.Canon.Hash.ID(added[0])), sim.CoqListN(idsOf(c.s.Canon, c.links[added[0]])))
+	for _, t := range to {
+		// Sync stores the announced head locally, then the replicator fetches from it
+		c.step("HFetch %s %s %s", sim.CoqNat(t), sim.CoqListN(idsOf(c.s.Canon, added)), c.okFun(t, added[0]))
+	}
+	c.route(i, to...)
+	c.settle("announce")
+	c.trace("write on %d: entry %d links %v, announced to %v -> %v", i, c.s.Canon.Hash.ID(added[0]), idsOf(c.s.Canon, c.links[added[0]]), to, c.lens())
+	c.holesAll("after write")
+	return added[0], nil
+}
+
+func (c *c02scen) restartStep(i int, when string) error {
+	c.settle("pre-restart")
+	c.cover(i, "before-restart")
+	// the load, then the replication request the load spawns for what it could not load
+	// (no request without the repair: nothing to retry in the model either)
+	ok := c.okFun(i)
+	c.step("HRestart %s %s", sim.CoqNat(i), ok)
+	c.step("HFetch %s [] %s", sim.CoqNat(i), ok)
+	if err := c.restart(i); err != nil {
+		return err
+	}
+	c.settle("restart")
+	c.histCase(false, when)
+	c.trace("restart %d (%s) -> %v log %v failed %v", i, when, c.lens(), idsOf(c.s.Canon, hashesOf(c.s.Stores[i].OpLog().Values().Slice())), idsOf(c.s.Canon, c.failedOf(i)))
+	c.r.Count("restart")
+	c.holes(i, when, true)
+	return nil
+}
+
+func (c *c02scen) runHoles(variant string) error {
+	r, s, n, net := c.r, c.s, c.n, c.s.Env.Net
+	perm := r.Rng.Perm(n)
+	A, B := perm[0], perm[1]
+	C := -1
+	if n > 2 {
+		C = perm[2]
+	}
+	others := func(i int) []int { // every replica but i and A
+		var o []int
+		for j := 0; j < n; j++ {
+			if j != i && j != A {
+				o = append(o, j)
+			}
+		}
+		return o
+	}
+	cutA := func() {
+		for j := 0; j < n; j++ {
+			if j != A {
+				net.Cut(c.idx(A), c.idx(j))
+			}
+		}
+	}
+	c.track = true
+	c.trace("%s: n=%d type=%s A=%d B=%d C=%d", variant, n, c.typ, A, B, C)
+	c.drain("start") // the initial (empty) head exchanges
+	tag := 0
+	next := func() int { tag++; return tag }
+	ids := func(hs ...string) []int { return idsOf(s.Canon, hs) }
+	switch variant {
+	case "holes-writer-head":
+		// B writes a chain; only the announcement of its last entry reaches A, and the link
+		// goes down after A fetched the entries above the first one.  A restarts while B is away.
+		e1, err := c.writeAnnounced(B, next(), others(B)...)
+		if err != nil {
+			return err
+		}
+		more := 1 + r.Rng.Intn(2)
+		for k := 0; k < more-1; k++ {
+			if _, err := c.writeAnnounced(B, next(), others(B)...); err != nil {
+				return err
+			}
+		}
+		net.CutBlockHash(c.idx(A), e1)
+		if _, err := c.writeAnnounced(B, next(), append(others(B), A)...); err != nil {
+			return err
+		}
+		cutA()
+		c.trace("A=%d fetched the head of B but not %v; links of A cut -> %v failed %v", A, ids(e1), c.lens(), ids(c.failedOf(A)...))
+		if err := c.restartStep(A, "after restart with a hole"); err != nil {
+			return err
+		}
+	case "holes-third-replica":
+		// B writes e1, e2; C replicates both and writes e3 on top; A hears about e3 only and
+		// the links go down before it fetched e1.
+		e1, err := c.writeAnnounced(B, next(), C)
+		if err != nil {
+			return err
+		}
+		if _, err := c.writeAnnounced(B, next(), C); err != nil {
+			return err
+		}
+		net.CutBlockHash(c.idx(A), e1)
+		if _, err := c.writeAnnounced(C, next(), A); err != nil {
+			return err
+		}
+		cutA()
+		c.trace("A=%d fetched the head of C but not %v; links of A cut -> %v failed %v", A, ids(e1), c.lens(), ids(c.failedOf(A)...))
+		if err := c.restartStep(A, "after restart with a hole"); err != nil {
+			return err
+		}
+	case "holes-two-restart-twice":
+		// concurrent roots e1 (B) and c1 (C); B replicates c1 and writes e2 above both; A
+		// fetches e2 only.  A restarts, reconnects to C only (c2 and c1 arrive, e1 is held by
+		// B only), restarts again.
+		e1, err := c.writeAnnounced(B, next())
+		if err != nil {
+			return err
+		}
+		c1, err := c.writeAnnounced(C, next(), B)
+		if err != nil {
+			return err
+		}
+		net.CutBlockHash(c.idx(A), e1)
+		net.CutBlockHash(c.idx(A), c1)
+		if _, err := c.writeAnnounced(B, next(), A); err != nil {
+			return err
+		}
+		cutA()
+		c.trace("A=%d fetched the head of B but neither %v; links of A cut -> %v failed %v", A, ids(e1, c1), c.lens(), ids(c.failedOf(A)...))
+		// C writes again and B merges it: B's cached remote heads are now the heads of its
+		// log (no stale cached head names e1 or c1 any more)
+		if _, err := c.writeAnnounced(C, next(), B); err != nil {
+			return err
+		}
+		if err := c.restartStep(A, "after restart with two holes"); err != nil {
+			return err
+		}
+		net.Heal(c.idx(A), c.idx(C))
+		if !c.awaitDirect(C, A) || !c.awaitDirect(A, C) {
+			return fmt.Errorf("C02 holes: no head exchange after heal")
+		}
+		c.settle("heal")
+		// C's heads reach A; A's heads are lost on the way to C (so that C does not fetch e1
+		// and e2 concurrently with A's retry: keeps the history deterministic)
+		heads := c.cachedHeads(C)
+		c.step("HFetch %s %s %s", sim.CoqNat(A), sim.CoqListN(idsOf(s.Canon, heads)), c.okFun(A, heads...))
+		c.route(C, A)
+		c.route(A)
+		c.settle("exchange")
+		c.histCase(false, "after partial heal")
+		c.trace("A=%d and C=%d reconnected, C's heads delivered to A -> %v failed %v", A, C, c.lens(), ids(c.failedOf(A)...))
+		c.holesAll("after partial heal")
+		if err := c.restartStep(A, "after second restart"); err != nil {
+			return err
+		}
+	default:
+		return fmt.Errorf("unknown variant %s", variant)
+	}
+	c.final()
 	return nil
 }
 
